@@ -1,4 +1,4 @@
-(** Laplacian smoothing (C15): executable model, no proofs.
+(** Laplacian smoothing (C15): executable model, no proofs (Model/C15_Smooth.v).
 
     Transcribed from /repo/src/classy_blocks/optimize:
       cell.py       CellBase.get_common_indexes / get_corner / get_common_side / add_neighbour / boundary
@@ -103,6 +103,18 @@ Definition nbrs_in (cc : list (cell * list (nat * nat))) (n j : nat) : list nat 
 Definition nbrs (ct : celltype) (cells : list cell) (n j : nat) : list nat :=
   nbrs_in (cell_conns ct cells) n j.
 
+(** the same list, computed from the few cells that contain [j] (equal to [nbrs]: Proofs/C15_Fast.v);
+    the correspondence evaluates this one *)
+Definition partners (ct : celltype) (cells : list cell) (j : nat) : list nat :=
+  flat_map (fun c => if memb j c then
+                       flat_map (fun ab => let x := nth (fst ab) c 0 in let y := nth (snd ab) c 0 in
+                                           (if x =? j then [y] else []) ++ (if y =? j then [x] else []))
+                                (ct_edges ct)
+                     else []) cells.
+Definition nbrs_fast (ct : celltype) (cells : list cell) (n j : nat) : list nat :=
+  let ps := partners ct cells j in
+  filter (fun t => negb (t =? j) && memb t ps) (seq 0 n).
+
 (** ** the smoother *)
 
 (** SmootherBase.inner *)
@@ -114,6 +126,9 @@ Definition inner (ct : celltype) (cells : list cell) (n : nat) : list nat :=
 Definition schedule (ct : celltype) (cells : list cell) (n : nat) (fixed : list nat) : list (nat * list nat) :=
   let cc := cell_conns ct cells in
   map (fun j => (j, nbrs_in cc n j)) (filter (fun j => negb (memb j fixed)) (inner ct cells n)).
+
+Definition schedule_fast (ct : celltype) (cells : list cell) (n : nat) (fixed : list nat) : list (nat * list nat) :=
+  map (fun j => (j, nbrs_fast ct cells n j)) (filter (fun j => negb (memb j fixed)) (inner ct cells n)).
 
 Open Scope Q_scope.
 
@@ -169,6 +184,12 @@ Definition smooth (g : grid) (fixed_idx : list nat) (targets : list pt) (tol2 : 
   let '(xs, ys, zs) := p in
   (iterate iters sch xs, iterate iters sch ys, iterate iters sch zs).
 
+Definition smooth_fast (g : grid) (fixed_idx : list nat) (targets : list pt) (tol2 : Q) (iters : nat) (p : pts) : pts :=
+  let fixed := fixed_idx ++ fix_points (g_n g) p targets tol2 in
+  let sch := schedule_fast (g_ct g) (g_cells g) (g_n g) fixed in
+  let '(xs, ys, zs) := p in
+  (iterate iters sch xs, iterate iters sch ys, iterate iters sch zs).
+
 (** ** copy back *)
 
 (** SketchSmoother.backport: face [i] receives the grid points of quad [i];
@@ -210,7 +231,7 @@ Definition list_eqb (l m : list nat) : bool :=
 
 Definition agree (c : case) : bool :=
   let g := c_grid c in
-  let p := smooth g (c_fixed c) (c_targets c) (c_tol2 c) (c_iters c) (c_in c) in
+  let p := smooth_fast g (c_fixed c) (c_targets c) (c_tol2 c) (c_iters c) (c_in c) in
   let rows := map (pt_at p) (seq 0 (g_n g)) in
   let faces := backport (0, 0, 0) rows (c_quads c) in
   (length faces =? length (c_out c))%nat
@@ -224,6 +245,6 @@ Definition agree (c : case) : bool :=
               && forallb (fun ab => pt_close (c_tol c) (fst ab) (snd ab)) (combine mp ps)
       end)
   && list_eqb (inner (g_ct g) (g_cells g) (g_n g)) (c_inner c)
-  && forallb (fun jn => list_eqb (nbrs (g_ct g) (g_cells g) (g_n g) (fst jn)) (snd jn)) (c_nbrs c).
+  && forallb (fun jn => list_eqb (nbrs_fast (g_ct g) (g_cells g) (g_n g) (fst jn)) (snd jn)) (c_nbrs c).
 
 Definition mismatching (cs : list case) : list nat := map c_id (filter (fun c => negb (agree c)) cs).
